@@ -186,8 +186,35 @@ def append(r, F):
                   "the result of the final flush is discarded: a failed page write is acknowledged as flushed", ln=fn.blocks[fb].term.ln)
 
 
+def locate(r, F):
+    """PageBuffer::locate maps a log page to (partition, byte offset): a page belongs to the current partition only while page < pages of that partition;
+    at equality it is the FIRST page of the next partition (writing it at offset == partition size would land outside the partition and recovery, which reads
+    partitions page by page, would never see those tombstones)."""
+    fn = F.method("foyer_storage::engine::block::tombstone::PageBuffer", "locate")
+    ret = [b.idx for b in fn.blocks if not b.cleanup for s in b.stmts if s.k == "assign" and s.place.local == 0 and s.place.is_local()]
+    if not ret:
+        raise AnchorMissing("PageBuffer::locate: result construction not found")
+    pages = lambda f, op: op.place is not None and backslice(f, op, "dep").has_call(r"Partition::size$") and 2 not in backslice(f, op, "dep").args
+    page = lambda f, op: op.place is not None and 2 in backslice(f, op, "dep").args
+    found = tables.find_cmp(fn, page, pages, "comparison of the page number with the partition's page count")
+    r.require(len(found) == 1, fn, "one partition test", "a single page ? partition_pages test", "PageBuffer::locate has %d partition tests" % len(found), ln=fn.lo)
+    for c, fl in found:
+        tab = tables.table(fn, c, fl, ret)
+        r.require(tab == ("yes", "no", "no"), fn, "locate: page ? partition_pages -> resolved here", "table (page<pages, =, >) -> this partition: %s" % (tab,),
+                  "PageBuffer::locate must resolve a page in the current partition only while page < partition_pages (at equality it is the first page of the next partition); got %s "
+                  "— a page is written outside its partition and the tombstones in it are lost at the next open" % (tab,), ln=c.ln)
+        # on the other edge the page number is reduced by this partition's pages and the partition index advances
+        ge_t = c.target("eq", fl)
+        reach = fn.reachable([ge_t], avoid=[c.sw.idx])
+        subs = [s for b in fn.blocks if b.idx in reach for s in b.stmts if s.k == "assign" and s.rv.k == "bin" and s.rv.op in ("Sub", "SubWithOverflow", "SubUnchecked")]
+        adds = [s for b in fn.blocks if b.idx in reach for s in b.stmts if s.k == "assign" and s.rv.k == "bin" and s.rv.op in ("Add", "AddWithOverflow", "AddUnchecked") and any(o.is_const() and o.const_val() == 1 for o in s.rv.ops)]
+        r.require(bool(subs) and any(pages(fn, s.rv.ops[1]) for s in subs) and bool(adds), fn, "locate: next partition", "page -= partition_pages; partition += 1",
+                  "PageBuffer::locate does not subtract the skipped partition's pages / advance the partition index when moving on", ln=c.ln)
+
+
 def run(chk, F):
     chk.run_rule("C10.tail-depends-on-position", "the recovered log tail depends on partition, page offset and in-page slot of the newest tombstone", 3, tail_position, F)
     chk.run_rule("C10.slot-of-offset", "every branch computing the newest tombstone's slot is affine-equal to offset / SERIALIZED_LEN", 2, slot_of_offset, F)
     chk.run_rule("C10.codec", "Tombstone::write and ::read agree on field order and width", 2, codec, F)
     chk.run_rule("C10.append", "append writes at the tail slot, advances it, flushes on page change and before returning, propagating errors", 6, append, F)
+    chk.run_rule("C10.locate", "a log page resolves to the partition that holds it: current partition iff page < its page count, else subtract and advance", 3, locate, F)
